@@ -28,18 +28,24 @@ TYPE_TXT = {
     "W": "[ moleculetype ]\nW 1\n[ atoms ]\n1 Q 1 W W 1 0.0 72\n",
     "A": ("[ moleculetype ]\nA 1\n[ atoms ]\n1 P 1 RA a1 1 0.0 36\n2 P 1 RA a2 1 0.0 36\n3 P 2 RB b1 2 0.0 36\n4 P 2 RB b2 2 0.0 36\n"
           "5 P 3 RA a1 3 0.0 36\n6 P 3 RA a2 3 0.0 36\n[ bonds ]\n1 2 1 0.30 1000\n3 4 1 0.33 1000\n5 6 1 0.30 1000\n2 3 1 0.40 1000\n4 5 1 0.40 1000\n"),
+    "L": ("[ moleculetype ]\nL 1\n[ atoms ]\n" + "".join("%d P %d %s %s %d 0.0 36\n" % (i, i, "RA" if i % 2 else "RB", "a1" if i % 2 else "b1", i) for i in range(1, 9))
+          + "[ bonds ]\n" + "".join("%d %d 1 0.40 1000\n" % (i, i + 1) for i in range(1, 8))),
     "V": ("[ moleculetype ]\nV 1\n[ atoms ]\n1 P 1 RV c1 1 0.0 36\n2 P 1 RV c2 1 0.0 36\n3 P 1 RV v 1 0.0 0\n4 P 2 RA a1 2 0.0 36\n5 P 2 RA a2 2 0.0 36\n"
           "[ bonds ]\n1 2 1 0.35 1000\n4 5 1 0.30 1000\n2 4 1 0.40 1000\n[ virtual_sites2 ]\n3 1 2 1 0.5\n"),
 }
 
 
-def top_text(mollist):
+def top_text(mollist, split_include=False):
     s = "[ defaults ]\n1 2 no 1.0 1.0\n[ atomtypes ]\nP 36.0 0.0 A 0.40 2.0\nQ 72.0 0.0 A 0.47 4.0\n"
-    for t in ("W", "A", "V"):
+    for t in ("W", "A", "V", "L"):
         if any(e["type"] == t for e in mollist):
             s += TYPE_TXT[t]
-    s += "[ system ]\nc03\n[ molecules ]\n" + "".join("%s %d\n" % (e["type"], e["n"]) for e in mollist)
-    return s
+    entries = ["%s %d\n" % (e["type"], e["n"]) for e in mollist]
+    if split_include and len(entries) > 1:
+        # the first part of [ molecules ] lives in an included file, the rest follows in the main file
+        return s + "[ system ]\nc03\n#include \"mols.itp\"\n[ molecules ]\n" + "".join(entries[1:]), "[ molecules ]\n" + entries[0]
+    s += "[ system ]\nc03\n[ molecules ]\n" + "".join(entries)
+    return s, None
 
 
 def struct_gro(listing, mode, mollist, skip=()):
@@ -73,7 +79,7 @@ def struct_gro(listing, mode, mollist, skip=()):
 
 def with_mol_index(listing, mollist):
     out, i, m = [], 0, 0
-    natoms = {"W": 1, "A": 6, "V": 5}
+    natoms = {"W": 1, "A": 6, "V": 5, "L": 8}
     for e in mollist:
         for _ in range(e["n"]):
             for a in listing[i:i + natoms[e["type"]]]:
@@ -121,8 +127,14 @@ def _run_one(arg):
     try:
         with tempfile.TemporaryDirectory(prefix="verif_c03_", dir="/var/tmp") as wd:
             wd = Path(wd)
-            (wd / "s.top").write_text(top_text(mollist))
+            main, inc = top_text(mollist, split_include=(sd % 3 == 0))
+            (wd / "s.top").write_text(main)
+            if inc is not None:
+                (wd / "mols.itp").write_text(inc)
             kw = {}
+            if any(e["type"] == "L" for e in mollist):
+                kw["nrewind"] = 2          # short rewinds across residues that are given (skipped steps)
+                budget["n"] = rng.randint(2, 6)
             if opt["struct"] != "none":
                 txt, _ = struct_gro(listing, opt["struct"], mollist, ("RB",) if opt["res"] else ())
                 (wd / "in.gro").write_text(txt)
@@ -142,7 +154,7 @@ def _run_one(arg):
                 kw["grid"] = str(wd / "grid.dat")
             if opt["start"]:
                 first = mollist[0]["type"]
-                kw["start"] = [{"A": "A-RB#2", "V": "V-RA#2", "W": "W-W#1"}[first]]
+                kw["start"] = [{"A": "A-RB#2", "V": "V-RA#2", "W": "W-W#1", "L": "L-RA#3"}[first]]
             with w.recording(chooser=chooser) as rec:
                 try:
                     gen_coords(toppath=wd / "s.top", outpath=wd / "out.gro", name="c03", max_force=1e12, **kw)
